@@ -1004,6 +1004,8 @@ def build(spec, bus=None, script=True, system=None, known=None):
         else:
             raise ValueError(k)
         if isinstance(d, PartHandler) and k != 'source':
+            if it.get('pre_offset') and hasattr(d, 'offset_next_cycle_time'):
+                d.offset_next_cycle_time(it['pre_offset'])
             d.add_receive_part_callback(ReceiveCb(log, i))
         if k == 'sink' and it.get('fee'):
             # a receive callback of the sink that writes part of the received part's value off (after receipt)
